@@ -32,6 +32,50 @@ func c11Idents(n ast.Node) string {
 	return sb.String()
 }
 
+// c11CallsAfterWait: in body, a statement that calls WaitForNewData is followed by a call of the function named fn
+func c11CallsAfterWait(body *ast.BlockStmt, fn string) bool {
+	if body == nil || fn == "" {
+		return false
+	}
+	sawWait := false
+	for _, st := range body.List {
+		if strings.Contains(c11Idents(st), "WaitForNewData") {
+			sawWait = true
+			continue
+		}
+		if !sawWait {
+			continue
+		}
+		found := false
+		ast.Inspect(st, func(n ast.Node) bool {
+			if ce, ok := n.(*ast.CallExpr); ok {
+				if id, ok := ce.Fun.(*ast.Ident); ok && id.Name == fn {
+					found = true
+				}
+			}
+			return true
+		})
+		if found {
+			return true
+		}
+	}
+	return false
+}
+
+// c11ParamName: the name of the i-th parameter of fd ("" if there is none)
+func c11ParamName(fd *ast.FuncDecl, i int) string {
+	k := 0
+	for _, f := range fd.Type.Params.List {
+		for _, n := range f.Names {
+			if k == i {
+				return n.Name
+			}
+			k++
+		}
+	}
+	return ""
+}
+
 func c11QueryLoop(fd *ast.FuncDecl) (waitCond, freshTimeout, breaksOnTimeout bool) {
 	if fd == nil {
 		return
@@ -113,6 +157,20 @@ func init() {
 		if fd := funcDecl(cf, "crsr", "WaitNewData"); fd == nil {
 			problem("cursor.crsr.WaitNewData not found")
 		} else {
+			// the cancel function of the wait: second result of context.WithCancel
+			cancelVar := ""
+			ast.Inspect(fd.Body, func(n ast.Node) bool {
+				if as, ok := n.(*ast.AssignStmt); ok && len(as.Lhs) == 2 && len(as.Rhs) == 1 {
+					if ce, ok := as.Rhs[0].(*ast.CallExpr); ok {
+						if se, ok := ce.Fun.(*ast.SelectorExpr); ok && se.Sel.Name == "WithCancel" {
+							if id, ok := as.Lhs[1].(*ast.Ident); ok {
+								cancelVar = id.Name
+							}
+						}
+					}
+				}
+				return true
+			})
 			ast.Inspect(fd.Body, func(n ast.Node) bool {
 				switch x := n.(type) {
 				case *ast.RangeStmt:
@@ -127,14 +185,19 @@ func init() {
 										}
 									}
 								}
-								if fl, ok := gs.Call.Fun.(*ast.FuncLit); ok {
-									sawWait := false
-									for _, st := range fl.Body.List {
-										s := c11Idents(st)
-										if strings.Contains(s, "WaitForNewData") {
-											sawWait = true
-										} else if sawWait && strings.Contains(s, "cancel") {
-											cancels = true
+								// the goroutine body: a function literal (the cancel function is captured) or a same-package helper
+								// (the cancel function is passed as an argument) — structure, not local names
+								switch fn := gs.Call.Fun.(type) {
+								case *ast.FuncLit:
+									cancels = c11CallsAfterWait(fn.Body, cancelVar)
+								case *ast.Ident:
+									if hd := funcDecl(cf, "", fn.Name); hd != nil {
+										for ai, a := range gs.Call.Args {
+											if id, ok := a.(*ast.Ident); ok && id.Name == cancelVar {
+												if pn := c11ParamName(hd, ai); pn != "" {
+													cancels = c11CallsAfterWait(hd.Body, pn)
+												}
+											}
 										}
 									}
 								}
